@@ -4,10 +4,12 @@ package c15
 import (
 	"encoding/json"
 	"fmt"
+	"slices"
 	"sort"
 	"strings"
 	"testing"
 
+	"github.com/philhassey/goatlang"
 	"pgregory.net/rapid"
 
 	"verif/internal/ev"
@@ -26,6 +28,12 @@ type Pkg struct {
 	Files   []File   `json:"files"`
 	Alias   bool     `json:"alias"`   // importers use an explicit alias
 	Blank   bool     `json:"blank,omitempty"` // importers import it for its side effects only (import _ "path")
+	// Ghost: the directory exists but holds no buildable file (only _test.go files and files excluded by their constraint):
+	// the import is then served by the host's native registration (or, blank, by nothing), exactly as if the directory were absent
+	Ghost bool `json:"ghost,omitempty"`
+	// Script: a stand-alone file (package main, //go:build ignore) kept in the directory of another package and loaded by
+	// file name; it is the top of the graph
+	Script bool `json:"script,omitempty"`
 }
 
 type File struct {
@@ -150,6 +158,19 @@ func genCase(rt *rapid.T) *Case {
 		c.Pkgs = append(c.Pkgs, p)
 	}
 	c.Pkgs[0].Name = rx.Pick(rt, "topname", "main", "p0")
+	var ghosts []int
+	if rx.Chance(rt, "ghosts", 1, 3) {
+		for g := rx.Range(rt, "nghosts", 1, 2); g > 0; g-- {
+			name := fmt.Sprintf("gh%d", len(c.Pkgs))
+			p := Pkg{Name: name, Path: rx.Pick(rt, "gprefix", prefixes...) + name, Ghost: true, Blank: rapid.Bool().Draw(rt, "gblank")}
+			p.Dir = p.Path
+			if rx.Chance(rt, "gvendor", 1, 4) {
+				p.Dir = "vendor/" + p.Path
+			}
+			ghosts = append(ghosts, len(c.Pkgs))
+			c.Pkgs = append(c.Pkgs, p)
+		}
+	}
 	// DAG edges i -> j for i < j; long chains and diamonds favoured by a per-case density
 	density := rx.Pick(rt, "density", 1, 2, 3, 5)
 	for i := 0; i < n; i++ {
@@ -159,8 +180,45 @@ func genCase(rt *rapid.T) *Case {
 			}
 		}
 	}
+	for _, g := range ghosts {
+		for k := rx.Range(rt, "gimporters", 1, 2); k > 0; k-- {
+			i := rx.Uniform(rt, n, "gimporter")
+			if !slices.Contains(c.Pkgs[i].Imports, g) {
+				c.Pkgs[i].Imports = append(c.Pkgs[i].Imports, g)
+			}
+		}
+	}
+	if rx.Chance(rt, "script", 1, 4) {
+		// the script lives in the directory of one of the packages (often the one it imports) and imports the former top
+		host := rx.Uniform(rt, n, "scripthost")
+		if rapid.Bool().Draw(rt, "scriptInTop") {
+			host = 0
+		}
+		sp := Pkg{Name: "main", Path: "script", Dir: c.Pkgs[host].Dir, Script: true, Imports: []int{0}}
+		if c.Pkgs[0].Name == "main" {
+			c.Pkgs[0].Name = "p0"
+		}
+		if host != 0 && rapid.Bool().Draw(rt, "scriptImportsHost") {
+			sp.Imports = append(sp.Imports, host)
+		}
+		c.Top = len(c.Pkgs)
+		c.Pkgs = append(c.Pkgs, sp)
+	}
 	for i := range c.Pkgs {
 		p := &c.Pkgs[i]
+		if p.Script {
+			p.Files = []File{{Name: "gen.go", Header: "//go:build ignore\n\n", VarMarks: rx.Range(rt, "svm", 0, 2), InitFuncs: rx.Range(rt, "sif", 1, 2), Imports: p.Imports, ExtraNative: true}}
+			continue
+		}
+		if p.Ghost {
+			if rx.Chance(rt, "gtest", 2, 3) {
+				p.Files = append(p.Files, File{Name: rx.Pick(rt, "gtname", "a_test.go", "gh_test.go"), Ignored: true, Garbage: rapid.Bool().Draw(rt, "ggarbage"), VarMarks: 1, InitFuncs: 1})
+			}
+			if len(p.Files) == 0 || rapid.Bool().Draw(rt, "gexcl") {
+				p.Files = append(p.Files, File{Name: rx.Pick(rt, "gxname", "stub.go", "doc.go"), Ignored: true, Header: "//go:build " + genConstraint(rt, false, 0) + "\n\n", VarMarks: 1, InitFuncs: 1, Unsupported: rapid.Bool().Draw(rt, "gunsupported")})
+			}
+			continue
+		}
 		nf := rx.Range(rt, "nfiles", 1, 4)
 		names := rapid.Permutation(fileNames).Draw(rt, "fnames")[:nf]
 		for k, fname := range names {
@@ -207,6 +265,9 @@ func genCase(rt *rapid.T) *Case {
 	if strings.HasPrefix(c.LoadArg, "vendor/") || c.Pkgs[0].Dir != c.Pkgs[0].Path {
 		// the top package is named by its import path; the loader applies the same search
 		c.LoadArg = c.Pkgs[0].Path
+	}
+	if c.Pkgs[c.Top].Script {
+		c.LoadArg = c.Pkgs[c.Top].Dir + "/gen.go"
 	}
 	return c
 }
@@ -421,6 +482,11 @@ func (c *Case) validate(stdout string) string {
 func check(c *Case) *ev.Failure {
 	files := c.files()
 	vm := goat.New()
+	for _, p := range c.Pkgs {
+		if p.Ghost && !p.Blank {
+			vm.Set(p.Path+".Val", goatlang.NewFunc(0, 1, func(*goatlang.VM) goatlang.Value { return goatlang.Int(3) }))
+		}
+	}
 	r := vm.Load(goat.FS(files), c.LoadArg, goat.DefaultBudget)
 	mk := func(msg string) *ev.Failure {
 		var names []string
@@ -486,6 +552,15 @@ func nontrivial(c *Case) []string {
 	}
 	if c.Negative != "" {
 		why = append(why, "negative_"+c.Negative)
+	}
+	for i, p := range c.Pkgs {
+		if reach[i] && p.Ghost {
+			why = append(why, "imports_directory_without_buildable_file")
+			break
+		}
+	}
+	if c.Pkgs[c.Top].Script {
+		why = append(why, "script_file_inside_a_package_directory")
 	}
 	return why
 }
